@@ -223,6 +223,10 @@ class Soap11(XmlDocument):
             raise Fault('Client.SoapError', 'Soap body is empty!')
 
         if body_document.tag == '{%s}Fault' % self.ns_soap_env:
+            if message is self.REQUEST:
+                # only a response can carry a fault
+                raise Fault('Client.SoapError', 'A request can not be a Fault')
+
             ctx.in_body_doc = body_document
 
         else:
